@@ -23,6 +23,11 @@ def pack(tags, encoding='latin_1', cfgname=None):
         iso = M().iso8583
         cfgs = None
         carriers = CARRIERS
+        if cfgname == 'unordered-keys':
+            # a configuration whose keys are not in ascending numeric order (JSON written with sorted string keys: "123" < "48" < "62")
+            from . import packaged
+            base = packaged.bit_config()
+            cfgs = {k: dict(base[k]) for k in sorted(base)}
         if cfgname in ('de62-plain', 'reconfigured'):
             import copy
             from . import packaged
@@ -103,6 +108,8 @@ def obligations(tier):
                   'six tags, lengths 0..992 (up to five carriers; sets needing six are outside by the capacity assumption)', _funcs))
     obs.append(Ob('pack/2-tags/reconfigured-carriers', pack(['0500', '0023'], 'latin_1', 'reconfigured'), 300,
                   'a configuration object that was used once with DE62 as a carrier and then edited in place (DE62 plain): carriers are 48, 123, ...', _funcs))
+    obs.append(Ob('pack/3-tags/unordered-configuration-keys', pack(['0500', '0501', '0023'], 'latin_1', 'unordered-keys'), 300,
+                  'caller-supplied copy of the packaged configuration whose dictionary keys are in string order (123, 124, 125 before 48, 62)', _funcs))
     obs.append(Ob('pack/3-tags/custom-carriers', pack(['0500', '0501', '0023'], 'latin_1', 'de62-plain'), 300,
                   'caller-supplied configuration in which DE62 is plain text: carriers are 48, 123, 124, 125', _funcs))
     if not q:
